@@ -19,6 +19,8 @@ def templates(tier, seed):
     ts = []
     for N in ((1, 2, 3) if tier == "quick" else (1, 2, 3, 4, 5)):
         ts.append(Template(f"STUB/series/N={N}", tmpl.pick(tmpl.coerce_stub_case, LABELS), (N, "series")))
+        # row labels may repeat (concatenated frames, keys used as the index): the failure cases still name every inconvertible element
+        ts.append(Template(f"STUB/series_repeated_labels/N={N}", tmpl.pick(tmpl.coerce_stub_case, LABELS), (N, "series", None, "pandas", "ValueError", False)))
     # the element conversion may raise ANY exception type (np.int64(2**64) raises OverflowError), in both engines' try_coerce
     for engine in ("pandas",):  # (a numpy_engine stub is re-resolved to the real pandas_engine dtype inside engines/utils: not stub-able)
         for exc in ("ValueError", "TypeError", "OverflowError", "ArithmeticError", "KeyError"):
